@@ -326,7 +326,8 @@ def run(ck, facts):
     first_match = next((i for i, s in enumerate(items) if any(x.get("k") in ("match",) or (x.get("k") == "if" and C.strip(x["c"]).get("k") == "let") for x in C.walk(s))), None)
     ck.expect(unwrap_idx is not None and (first_match is None or unwrap_idx < first_match), "R2", "visit_param/options-unwrapped-first", "", "visit_param matches on the outer type without unwrapping DiplomatOption first: optional struct/slice parameters get no edge (or hit unreachable!)", C.loc(vp))
     kinds = {}
-    for n in C.walk(body):
+    vp_nodes = [x for b_ in C.bodies_inl(core, body, depth=1, exclude=[vp["path"]]) for x in C.walk(b_)]     # visit_param and the per-shape phases it may be split into
+    for n in vp_nodes:
         if n.get("k") == "match" and (n.get("sadt") or "").endswith("hir::types::Type"):
             for a in n["arms"]:
                 ctors = [x.get("ctor", "").split("::")[-1] for x in C.walk(a["b"]) if x.get("k") == "def" and "LifetimeEdgeKind" in (x.get("ctor") or "")]
@@ -334,7 +335,7 @@ def run(ck, facts):
                 for q in ([pv] if pv.get("k") != "or" else pv["alts"]):
                     if ctors:
                         kinds[q.get("v")] = ctors[0]
-    struct_edge = any(x.get("k") == "call" and (x.get("ctor") or "").endswith("LifetimeEdgeKind::StructLifetime") for x in C.walk(body))
+    struct_edge = any(x.get("k") == "call" and (x.get("ctor") or "").endswith("LifetimeEdgeKind::StructLifetime") for x in vp_nodes)
     ck.expect(kinds.get("Slice") == "SliceParam" and kinds.get("Opaque") == "OpaqueParam" and struct_edge, "R2", "visit_param/edge-kinds", "%s + StructLifetime" % kinds, "edge kinds per shape changed: %s (struct edge: %s)" % (kinds, struct_edge), C.loc(vp))
     rets = [n for n in C.walk(body) if n.get("k") == "ret"]
     first_if = next((C.strip(s) for s in items if C.strip(s).get("k") == "if"), None)
@@ -343,7 +344,7 @@ def run(ck, facts):
     ck.expect(ok_ret, "R2", "visit_param/only-early-exit", "%d returns, all under used_method_lifetimes.is_empty()" % len(rets),
               "visit_param has an early return that is not `used_method_lifetimes.is_empty()`: parameters whose lifetime merely outlives a used lifetime (via bounds) would be skipped", C.loc(vp))
     # the longer-set test is what selects an edge
-    contains = [n for n in C.walk(body) if n.get("k") == "mcall" and n.get("m") == "contains" and any(x.get("k") == "field" and x.get("n") == "all_longer_lifetimes" for x in C.walk(n["recv"]))]
+    contains = [n for n in vp_nodes if n.get("k") == "mcall" and n.get("m") == "contains" and any(x.get("k") == "field" and x.get("n") == "all_longer_lifetimes" for x in C.walk(n["recv"]))]
     ck.expect(len(contains) >= 2, "R2", "visit_param/uses-longer-closure", "%d tests" % len(contains), "edges are no longer selected by membership in all_longer_lifetimes", C.loc(vp))
     # used_method_lifetimes covers ok and err payloads
     um = core.fn("hir::methods::ReturnType::used_method_lifetimes")
